@@ -94,9 +94,11 @@ Definition known_len (c : case) : bool :=
   | None => false
   end.
 
+(* a private-use character followed by a raw tab: Display terminates its hex escape only before a
+   hex digit or a space, the CSS reader swallows any one white space *)
 Fixpoint pu_then_hex (l : list N) : bool :=
   match l with
-  | c :: ((d :: _) as r) => (is_private_use c && (is_hex d || is_ws d)) || pu_then_hex r
+  | c :: ((d :: _) as r) => (is_private_use c && (d =? 9)) || pu_then_hex r
   | _ => false
   end.
 
@@ -124,8 +126,8 @@ Fixpoint bad_escape (sq : bool) (l : list N) (st : bst) : bool :=
       end
   end.
 
-(* K2: the printed token denotes another string: a private-use character followed by a hex digit or
-   white space (written as a bare hex escape), an escaped tab/newline, an escape
+(* K2: the printed token denotes another string: a private-use character followed by a tab (its hex
+   escape is terminated only before a hex digit or space), an escaped tab/newline, an escape
    of a surrogate / out-of-range code point, a hex escape terminated by tab/newline, or the escape of a
    control character followed by a space character (cleanup_escape_ws drops the terminator) *)
 Definition known_emit (c : case) : bool :=
